@@ -436,7 +436,28 @@ func (ex *Exec) mergeVals(conds []Term, vals []Val, what string) Val {
 					}
 					lv.Path[i].Idx = ex.vc.Define("mp_"+what, r)
 				}
-				return Val{IsPtr: true, P: lv}
+				out := Val{IsPtr: true, P: lv}
+				anyNil := false
+				for _, v := range vals {
+					if v.NilIf.Sort != nil {
+						anyNil = true
+					}
+				}
+				if anyNil {
+					r := TFalse
+					if vals[len(vals)-1].NilIf.Sort != nil {
+						r = vals[len(vals)-1].NilIf
+					}
+					for j := len(vals) - 2; j >= 0; j-- {
+						nj := TFalse
+						if vals[j].NilIf.Sort != nil {
+							nj = vals[j].NilIf
+						}
+						r = Ite(conds[j], nj, r)
+					}
+					out.NilIf = ex.vc.Define("mpn_"+what, r)
+				}
+				return out
 			}
 		}
 		for _, v := range vals {
@@ -459,7 +480,7 @@ func (ex *Exec) mergeVals(conds []Term, vals []Val, what string) Val {
 	r := cur
 	for i := len(vals) - 2; i >= 0; i-- {
 		vi := vals[i].T
-		if vi.Sort != r.Sort {
+		if !sameSort(vi.Sort, r.Sort) {
 			return Val{Poison: fmt.Sprintf("merge of different sorts for %s: %s vs %s", what, vi.Sort, r.Sort)}
 		}
 		r = Ite(conds[i], vi, r)
@@ -485,7 +506,7 @@ func sameVal(a, b Val) bool {
 		return false
 	}
 	if a.IsPtr {
-		return sameLV(a.P, b.P)
+		return sameLV(a.P, b.P) && a.NilIf.S == b.NilIf.S
 	}
 	if len(a.Tup) > 0 {
 		for i := range a.Tup {
@@ -1027,14 +1048,37 @@ func (ex *Exec) rangeFacts(t Term, typ types.Type, depth int) []Term {
 	case *types.Slice:
 		out = append(out, leT(IntLit64(0, SInt), slLen(t)), leT(slLen(t), IntLit(maxSliceLen, SInt)),
 			Implies(slNil(t), Eq(slLen(t), IntLit64(0, SInt))))
+		if depth >= 2 {
+			// typing invariant of the elements
+			el := ex.rangeFacts(Select(slArr(t), Atom("q_ri", SInt)), u.Elem(), 2)
+			if len(el) > 0 && !hasNestedQuantifier(el) {
+				out = append(out, Term{S: fmt.Sprintf("(forall ((q_ri Int)) (! %s :pattern (%s)))", And(el...).S, Select(slArr(t), Atom("q_ri", SInt)).S), Sort: SBool})
+			}
+		}
 	case *types.Map:
-		out = append(out, leT(IntLit64(0, SInt), FieldOf(t, 2)), Implies(FieldOf(t, 3), Eq(FieldOf(t, 2), IntLit64(0, SInt))))
+		out = append(out, leT(IntLit64(0, SInt), mpCard(t)), leT(mpCard(t), IntLit(maxSliceLen, SInt)), Implies(mpNil(t), Eq(mpCard(t), IntLit64(0, SInt))))
+		if depth >= 2 {
+			k := Atom("q_rk", t.Sort.Key)
+			el := ex.rangeFacts(Select(mpVal(t), k), u.Elem(), 2)
+			if len(el) > 0 && !hasNestedQuantifier(el) {
+				out = append(out, Term{S: fmt.Sprintf("(forall ((q_rk %s)) (! %s :pattern (%s)))", t.Sort.Key.Name, And(el...).S, Select(mpVal(t), k).S), Sort: SBool})
+			}
+		}
 	}
 	return out
 }
 
 // slice lengths are assumed to stay below 2^62 (an int64 index cannot overflow by adding one)
 var maxSliceLen = new(big.Int).Lsh(big.NewInt(1), 62)
+
+func hasNestedQuantifier(ts []Term) bool {
+	for _, t := range ts {
+		if strings.Contains(t.S, "(forall ") {
+			return true
+		}
+	}
+	return false
+}
 
 func funcKey(fn *ssa.Function) string {
 	pkg := ""
